@@ -72,11 +72,13 @@ FAILS = {
     "radix-range-low": (["rx = a", "v = \"1\".parse_int_radix(rx)"], "conversion", None),
     "radix-range-big": (["rx = 36 + a", "v = \"ff\".parse_bigint_radix(rx)"], "conversion", None),
     "repeat-range": (["rn = 0 - a", "v = \"ab\" * rn"], "range", None),
+    "abs-min": (["lo = 0 - 2147483647", "lo = lo - a", "v = lo.abs()"], "overflow", None),
+    "abs-min-big": (["lb = B0 - B170141183460469231731687303715884105727", "lb = lb - a", "v = lb.abs()"], "overflow", None),
 }
 CARRIED_FAILS = [k for k in FAILS if any(t in k for t in ("-boxed", "-elem", "-field", "-map-entry", "-opassign"))]
 # failure kinds raised by a built-in method -> a fragment of that built-in's name in the `<native code>#...` trace line
-NATIVE_OF = {"radix-range": "ParseIntRadix", "radix-range-low": "ParseIntRadix", "radix-range-big": "ParseBigintRadix", "remove": "Remove", "remove-at-len": "Remove", "substring": "Substring", "conv-byte": "ToByte", "conv-int": "ToInt"}
-QUICK_FAILS = CARRIED_FAILS + ["assert", "get-nil", "index", "index-at-len", "set-at-len", "div-int", "div-byte", "overflow-add", "conv-byte", "remove", "nil-field", "div-float", "div-min", "div-min-big", "div-min-opassign", "radix-range", "radix-range-low", "radix-range-big", "repeat-range"]
+NATIVE_OF = {"conv-byte-boxed": "ToByte", "abs-min": "Abs", "abs-min-big": "Abs", "radix-range": "ParseIntRadix", "radix-range-low": "ParseIntRadix", "radix-range-big": "ParseBigintRadix", "remove": "Remove", "remove-at-len": "Remove", "substring": "Substring", "conv-byte": "ToByte", "conv-int": "ToInt"}
+QUICK_FAILS = CARRIED_FAILS + ["assert", "get-nil", "index", "index-at-len", "set-at-len", "div-int", "div-byte", "overflow-add", "conv-byte", "remove", "nil-field", "div-float", "div-min", "div-min-big", "div-min-opassign", "radix-range", "radix-range-low", "radix-range-big", "repeat-range", "abs-min", "abs-min-big"]
 
 
 def chain_ok(chain):
